@@ -2,12 +2,14 @@ package props
 
 import (
 	"fmt"
+	"math"
 	"sort"
 	"strings"
 
 	"github.com/vedadiyan/genql"
 
 	"verifharness/internal/fw"
+	"verifharness/internal/gen"
 	"verifharness/internal/val"
 )
 
@@ -49,7 +51,7 @@ var c12Positions = []struct {
 }
 
 func init() {
-	floor := []string{"item.async", "item.async-union", "item.async-cte", "item.async-multidim", "item.once-multidim", "item.async-derived", "item.cte-dual-star", "item.fuse-dual-star", "item.fuse", "item.fuse-alias", "item.setvar", "rich", "parjoin"}
+	floor := []string{"item.async", "item.async-union", "item.async-cte", "item.async-multidim", "item.once-multidim", "item.async-derived", "item.cte-dual-star", "item.fuse-dual-star", "item.fuse", "item.fuse-alias", "item.setvar", "item.async-derived-object", "reexec.after-fault", "group.mixed-keys", "rich", "parjoin"}
 	for _, f := range c12Forms {
 		floor = append(floor, "form."+f.name)
 	}
@@ -75,6 +77,7 @@ func init() {
 				return pick(t, 6*len(c12Forms)*len(c12Positions), 80*len(c12Forms)*len(c12Positions))
 			}, Run: c12Matrix},
 			{Name: "rich", N: func(t fw.Tier) int { return pick(t, 10000, 200000) }, Run: c12Rich},
+			{Name: "groups", N: func(t fw.Tier) int { return pick(t, 600, 12000) }, Run: c12Groups},
 			{Name: "parjoin", N: func(t fw.Tier) int { return pick(t, 128, 2000) }, Run: c12ParJoin, Batch: 8},
 		},
 		Witness: sqlWitness,
@@ -85,6 +88,7 @@ func c12Judge(c *fw.Case, d *richDoc, sql string, multiset bool, feats []string,
 	armFault(0, faultNone)
 	o := Run(d.fresh(), sql, opts()...)
 	waitBackground()
+	n0 := faultCount()
 	c.Sample(map[string]any{"sql": sql, "outcome": short(fmt.Sprint(o.Describe()), 200)})
 	det := map[string]any{"sql": sql, "doc": d.doc, "observed": o.Describe()}
 	if o.Panic != nil {
@@ -151,6 +155,39 @@ func c12Judge(c *fw.Case, d *richDoc, sql string, multiset bool, feats []string,
 			}
 		}
 	}
+	// a Query object whose first execution failed part-way (a synchronous user
+	// function returning an error at one of its invocations) and is executed
+	// again: the second result is a repetition like any other
+	if n0 >= 1 && strings.Contains(sql, "VFAIL(") && !strings.Contains(sql, "ONCE.") && !strings.Contains(sql, "ASYNC.VFAIL") && !strings.Contains(sql, "SPIN.VFAIL") && !strings.Contains(sql, "SETVAR") {
+		// ASYNC calls of a derived table start in New and may not have begun when
+		// New returns: the planned fault is kept away from them (a failed ASYNC
+		// call is another matter), it is meant for a synchronous call of the execution
+		fault.syncOnly.Store(true)
+		defer func() { waitBackground(); fault.syncOnly.Store(false) }()
+		q, nerr := newSafe(d.fresh(), sql, opts()...)
+		if q != nil && nerr.Err == nil {
+			armFault(1+c.Intn(n0), faultError)
+			failed := execBuilt(q)
+			armFault(0, faultNone)
+			waitBackground()
+			if failed.Err != nil {
+				again := execBuilt(q)
+				waitBackground()
+				c.Feature("reexec.after-fault")
+				same := again.OK() && (val.SameSeq(o.Rows, again.Rows) || multiset && val.SameMultiset(o.Rows, again.Rows))
+				if !same {
+					det["first_exec"], det["second_exec"] = failed.Describe(), again.Describe()
+					c.Violate("reexec-differs", fmt.Sprintf("after an execution that failed part-way, executing the same Query object again returned %s instead of %s", short(fmt.Sprint(again.Describe()), 200), short(val.Canon(o.Rows), 200)), det)
+					return
+				}
+				if probs := val.PlainWalk(again.Rows, "<-"); len(probs) > 0 {
+					det["problems"] = probs
+					c.Violate("not-plain", fmt.Sprintf("the execution after a failed one is not plain data: %s", strings.Join(probs, "; ")), det)
+					return
+				}
+			}
+		}
+	}
 	c.Evals(1 + R)
 	// non-trivial: some non-NULL value besides rid
 	nt := false
@@ -188,12 +225,18 @@ func c12Matrix(c *fw.Case) {
 		d = newRichDoc(c)
 	}
 	nf, np := len(c12Forms), len(c12Positions)
-	cell := c.Idx % (nf*np + 24)
+	cell := c.Idx % (nf*np + 30)
 	if cell >= nf*np {
 		// special select items
 		var sql string
 		var feat string
-		switch (cell - nf*np) % 12 {
+		switch (cell - nf*np) % 15 {
+		case 12:
+			sql, feat = "SELECT q, VFAIL(q.rid) AS c FROM (SELECT rid, ASYNC.VBG(n1) AS y FROM t1) q", "item.async-derived-object"
+		case 13:
+			sql, feat = "SELECT *, VFAIL(1) AS c FROM (SELECT rid, AWAIT(ASYNC.VBG(s1)) AS y FROM t1) q", "item.async-derived-object"
+		case 14:
+			sql, feat = "SELECT q AS item, VFAIL(q.rid) AS c FROM (SELECT rid, ASYNC.VBG(n1) AS y, AWAIT(ASYNC.VBG(s1)) AS z FROM t1 WHERE n1 >= 0) q", "item.async-derived-object"
 		case 10:
 			sql, feat = "WITH c AS (SELECT rid FROM t1) SELECT * FROM dual", "item.cte-dual-star"
 		case 11:
@@ -286,3 +329,52 @@ func c12ParJoin(c *fw.Case) {
 }
 
 func sortStrings2(s []string) { sort.Strings(s) }
+
+// c12Groups: grouping over a key column that mixes kinds whose values look
+// alike ("0", -0.0, 0, "1", 1, true, NULL) is evaluated repeatedly on equal
+// inputs; every evaluation must return the same multiset of rows.
+func c12Groups(c *fw.Case) {
+	negZero := math.Copysign(0, -1)
+	pool := []any{"0", negZero, 0.0, "-0", "1", 1.0, "1.0", true, "true", nil, 2.0}
+	c.R.Shuffle(len(pool), func(i, j int) { pool[i], pool[j] = pool[j], pool[i] })
+	pool = pool[:3+c.Intn(4)]
+	if c.Idx%3 == 0 {
+		pool = []any{"0", negZero, 0.0}
+	}
+	n := 3 + c.Intn(10)
+	rows := make([]any, n)
+	for i := range rows {
+		rows[i] = map[string]any{"k": pool[i%len(pool)], "v": float64(1 + c.Intn(5)), "j": gen.Pick(c.R, pool)}
+		if i >= len(pool) {
+			rows[i].(map[string]any)["k"] = gen.Pick(c.R, pool)
+		}
+	}
+	doc := map[string]any{"g": rows}
+	sql := gen.Pick(c.R, []string{"SELECT k, COUNT(*) AS n, SUM(v) AS s FROM g GROUP BY k", "SELECT k, j, COUNT(*) AS n FROM g GROUP BY k, j", "SELECT k, MAX(v) AS m, COUNT(*) AS n FROM g GROUP BY k HAVING COUNT(*) >= 1",
+		"SELECT DISTINCT k FROM g", "SELECT k FROM g UNION SELECT j AS k FROM g"})
+	c.Feature("group.mixed-keys")
+	first := Run(val.CopyMap(doc), sql)
+	det := map[string]any{"sql": sql, "doc": doc, "observed": first.Describe()}
+	c.Sample(map[string]any{"sql": sql, "keys": val.Show(pool)})
+	if first.Panic != nil {
+		c.Violate("panic", fmt.Sprintf("panic escaped: %v", first.Panic), det)
+		return
+	}
+	if first.Err != nil {
+		c.Discard("query rejected with an error (not judged)")
+		return
+	}
+	R := pick(c.Tier, 12, 30)
+	for rep := 1; rep <= R; rep++ {
+		again := Run(val.CopyMap(doc), sql)
+		if !again.OK() || !val.SameMultiset(first.Rows, again.Rows) {
+			det["repetition"] = again.Describe()
+			c.Violate("nondeterministic", fmt.Sprintf("evaluation %d of the same query on an equal document differs: %s vs %s", rep+1, short(fmt.Sprint(again.Describe()), 200), short(val.Canon(first.Rows), 200)), det)
+			return
+		}
+	}
+	c.Evals(1 + R)
+	if len(first.Rows) >= 2 {
+		c.Nontrivial(sql + "|" + val.Canon(doc))
+	}
+}
